@@ -44,6 +44,28 @@ def shape_schema(variant):
     return S
 
 
+def sort_schema():
+    """sorted vectors reached through every path the generated recursive sorter walks: table field, vector of tables, union, union vector"""
+    T = lambda name, fields: {"name": name, "fields": fields}
+    S = {"namespace": "So.Rt", "enums": [], "structs": [{"name": "KS", "fields": [{"name": "k", "type": "int"}, {"name": "v", "type": "short"}], "force_align": None}],
+         "unions": [{"name": "U", "members": [("T", "Bag"), ("T", "Shelf"), ("str", "Note")]}],
+         "tables": [T("Room", [{"name": "shelf", "kind": "table", "type": "Shelf"}, {"name": "shelves", "kind": "vec_table", "type": "Shelf"},
+                               {"name": "u", "kind": "union", "type": "U"}, {"name": "us", "kind": "vec_union", "type": "U"}]),
+                    T("Shelf", [{"name": "bags", "kind": "vec_table", "type": "Bag"}, {"name": "one", "kind": "table", "type": "Bag"},
+                                {"name": "label", "kind": "string", "key": True}, {"name": "sbags", "kind": "vec_table", "type": "Bag", "sorted": True}]),
+                    T("Bag", [{"name": "items", "kind": "vec_table", "type": "Item", "sorted": True}, {"name": "tags", "kind": "vec_string", "sorted": True},
+                              {"name": "n", "kind": "vec_scalar", "type": "int", "sorted": True}, {"name": "id", "kind": "scalar", "type": "ulong", "key": True},
+                              {"name": "ks", "kind": "vec_struct", "type": "KS"}]),
+                    T("Item", [{"name": "name", "kind": "string", "key": True}, {"name": "w", "kind": "scalar", "type": "short", "key": True}])]}
+    S["root"] = "Room"
+    return S
+
+
+VARIANTS = [("split", ("-a", "--json"), None), ("split-g", ("-a", "--json", "-g"), None),
+            ("outfile", ("-a", "--json", "--outfile=all.h"), "all.h"), ("stdout-g", ("-a", "--json", "-g", "--stdout"), "all.h")]
+NFIXED = 3
+
+
 def run(ctx):
     ths = proof_stage(ctx)
     if ths is None:
@@ -54,7 +76,7 @@ def run(ctx):
     vobj = [o for o in build_runtime_objs(ctx) if o.endswith("verifier.o")]
     h = build_harness(ctx, "h_schema", [os.path.join(VERIF, "harness/h_schema.c")], cobjs + vobj)
     nsch = 150 if ctx.quick() else 3000
-    schemas = [shape_schema(0), shape_schema(1)]      # always first: compiled as C with the model's static assertions
+    schemas = [shape_schema(0), shape_schema(1), sort_schema()]      # always first: compiled as C with the model's static assertions
     for _ in range(nsch):
         S = schemagen.gen_schema(r)
         schemas.append(S)
@@ -85,7 +107,7 @@ def run(ctx):
             rc, out, _ = run_lines(FMODEL, [line])
             size, al, offs = out[0].split(" ")
             al = int(al)
-            if not st.get("force_align") and si >= 2 and r.random() < 0.3:
+            if not st.get("force_align") and si >= NFIXED and r.random() < 0.3:
                 fa = r.choice([a for a in (1, 2, 4, 8, 16, 32, 64, 256) if a >= al])
                 st["force_align"] = fa
                 rc, out, _ = run_lines(FMODEL, ["layout %d " % fa + ",".join("%d:%d" % m for m in ms)])
@@ -140,23 +162,28 @@ def run(ctx):
         S = schemas[si]
         d = os.path.join(ctx.work, "g%d" % si); os.makedirs(d, exist_ok=True)
         fbs = os.path.join(d, "s.fbs"); open(fbs, "w").write(schemagen.render(S))
-        rc, log = flatcc_generate(ctx, flatcc, fbs, d, opts=("-a", "--json"))
-        if rc != 0:
-            return "schema %d: flatcc -a --json failed: %s" % (si, log[:300])
         pre = (S["namespace"].replace(".", "_") + "_") if S["namespace"] else ""
-        probe = ['#include <stddef.h>', '#include "s_reader.h"', '#include "s_builder.h"', '#include "s_verifier.h"', '#include "s_json_parser.h"', '#include "s_json_printer.h"']
+        asserts = []
         for (sj, name, size, al, offs, fnames) in expect:
             if sj != si: continue
-            probe.append("_Static_assert(sizeof(%s%s_t) == %d, \"size of %s\");" % (pre, name, size, name))
-            probe.append("_Static_assert(_Alignof(%s%s_t) == %d, \"align of %s\");" % (pre, name, al, name))
+            asserts.append("_Static_assert(sizeof(%s%s_t) == %d, \"size of %s\");" % (pre, name, size, name))
+            asserts.append("_Static_assert(_Alignof(%s%s_t) == %d, \"align of %s\");" % (pre, name, al, name))
             for fn, off in zip(fnames, offs):
-                probe.append("_Static_assert(offsetof(%s%s_t, %s) == %d, \"offset of %s.%s\");" % (pre, name, fn, off, name, fn))
-        probe.append("int main(void) { return 0; }")
-        open(os.path.join(d, "probe.c"), "w").write("\n".join(probe) + "\n")
-        rc, log = cc(["-std=c11", "-Wall", "-Wno-unused-function", "-Werror=implicit-function-declaration", "-c", os.path.join(d, "probe.c"), "-o", os.path.join(d, "probe.o"),
-                      "-I", d, "-I", os.path.join(REPO, "include")])
-        if rc != 0:
-            return "schema %d: generated code does not compile / static assertion fails: %s\n%s" % (si, log[-1200:], schemagen.render(S))
+                asserts.append("_Static_assert(offsetof(%s%s_t, %s) == %d, \"offset of %s.%s\");" % (pre, name, fn, off, name, fn))
+        # every output shape, with and without the get-suffix option
+        for (vname, opts, single) in (VARIANTS if si < NFIXED or si % 2 else VARIANTS[:2]):
+            vd = os.path.join(d, vname); os.makedirs(vd, exist_ok=True)
+            rc, out, err = sh([flatcc, *opts, "-o", vd, fbs], timeout=120)
+            if rc != 0:
+                return "schema %d: flatcc %s failed: %s\n%s" % (si, " ".join(opts), (out + err)[:300], schemagen.render(S))
+            if "--stdout" in opts: open(os.path.join(vd, single), "w").write(out)
+            incs = ['#include "%s"' % single] if single else ['#include "s_reader.h"', '#include "s_builder.h"', '#include "s_verifier.h"', '#include "s_json_parser.h"', '#include "s_json_printer.h"']
+            open(os.path.join(vd, "probe.c"), "w").write("\n".join(['#include <stddef.h>'] + incs + asserts + ["int main(void) { return 0; }"]) + "\n")
+            rc, log = cc(["-std=c11", "-Wall", "-Wno-unused-function", "-Werror=implicit-function-declaration", "-Werror=int-conversion", "-c", os.path.join(vd, "probe.c"),
+                          "-o", os.path.join(vd, "probe.o"), "-I", vd, "-I", os.path.join(REPO, "include")])
+            if rc != 0:
+                return "schema %d: code generated with `flatcc %s` does not compile as C11 / a static assertion fails: %s\n%s" % (si, " ".join(opts), log[-1200:], schemagen.render(S))
+        shutil.rmtree(d, ignore_errors=True)
         return None
     cand = [si for si in range(len(schemas)) if dumps[si] is not None][:ncomp]
     with ThreadPoolExecutor(8) as ex:
